@@ -239,7 +239,11 @@ func (r *run) Step(ev explore.Event) []explore.Violation {
 			} else if _, ok := r.boxes[r.canonName(name)]; ok {
 				valid = false // name clash: not judged
 			} else {
-				effect = func() { r.boxes[r.canonName(name)] = true; r.remote[sp.Mbox] = r.canonName(name); delete(r.delSub, name) }
+				effect = func() {
+					r.boxes[r.canonName(name)] = true
+					r.remote[sp.Mbox] = r.canonName(name)
+					delete(r.delSub, name)
+				}
 			}
 		case "MailboxUpdated":
 			old, ok := r.remote[sp.Mbox]
